@@ -279,9 +279,11 @@ def extract(unit, enums, sigs):
     if cls:
         funcs, datas = class_members(unit['cls_file'], unit.get('cls_decl', cls))
         datas = set(datas) | set(unit.get('inherited_members', ()))
+        funcs = set(funcs) | set(unit.get('inherited_methods', ()))
         toks = r_members(ctx, toks, cls, funcs, datas)
     toks = r_local_refs(ctx, toks)
     toks = r_nstring_cmp(ctx, toks)
+    toks = r_ctor_decl(ctx, toks)
     toks = r_ctor_calls(ctx, toks)
     toks = r_opcalls(ctx, toks)
     toks = r_methods(ctx, toks)
@@ -359,6 +361,7 @@ def r_members(ctx, toks, cls, funcs, datas):
                (t.t in funcs and i + 1 < n and toks[i + 1].t == '(' and t.t in ctx.unit.get('member_calls', {})):
                 tgt = ctx.unit.get('member_calls', {}).get(t.t, cls + '_' + t.t)
                 e = match_close(toks, i + 1)
+                tgt = resolve_overload(ctx, tgt, toks[i + 2:e])
                 out.append(Tok('id', tgt, t.ws)); out.append(P('(', '')); out.append(I('self', ''))
                 if e > i + 2:
                     out.append(P(',', ''))
